@@ -39,7 +39,7 @@ def main(tier: str, seed: int, replay: str | None = None) -> int:
             ('refsim_model_cmp', 20), ('refsim_conjugation_cmp', 1),
             ('refsim_inverse_cmp', 1), ('model_valid', 100),
             ('effective:fold', 5), ('effective:unfold', 5),
-            ('effective:straighten', 1), ('effective:insert_circuit', 5),
+            ('noop:straighten', 1), ('effective:insert_circuit', 5),
             ('effective:batch_replace', 1), ('effective:renumber_qudits', 1),
         ],
     )
